@@ -348,6 +348,12 @@ func (ns *namesys) Publish(ctx context.Context, name ci.PrivKey, value path.Path
 	if ttEOL := time.Until(publishOpts.EOL); ttEOL < ttl {
 		ttl = ttEOL
 	}
+	if ttl <= 0 {
+		// Nothing to cache, but a previously cached value must not outlive
+		// this publish (cacheSet ignores entries that are not cacheable).
+		ns.cacheInvalidate(cacheKey)
+		return nil
+	}
 	ns.cacheSet(cacheKey, value, ttl, time.Now())
 	return nil
 }
